@@ -5,6 +5,7 @@ from props import common
 
 THM = "NextestModel.Thm.C04"
 GEN = ["tables"]
+GEN_GROUPS = ["mismatch"]
 TRUSTED = ["model: Model/NameFilter, Model/Filter (hand-written; corresponded)",
            "aho-corasick modelled as 'some pattern is an infix'; filterset truth values enter as inputs (C05 covers them)"]
 ASSUMPTIONS = ["libtest listing semantics as in C13", "partition stage behaviour is C13's subject; here only its position (last) matters"]
